@@ -15,7 +15,7 @@ RULE = ("full product: block size x disk-size form x every assignment of {unallo
         "non-trivial = request touching >= 2 blocks that differ in state or are not stored adjacently in ascending order")
 ASSUMPTIONS = [
     "VDI layout as transcribed from VirtualBox VDICore.h in mc/builders/vdi.py (header v1.1, int32 block map)",
-    "block sizes are powers of two >= 512 (VirtualBox writes 1 MiB); sector size 512",
+    "block sizes are whole multiples of the 512-byte sector, powers of two or not (VirtualBox writes 1 MiB)",
     "without a parent, unallocated (-1) and zero (-2) blocks both read as zeros",
     "units beyond the explored window size are covered only by translation invariance (DESIGN section 1)",
 ]
@@ -46,6 +46,12 @@ GEOMS = {
         dict(bs=512, W=3, cut=0, boff=1024, doff=None, at=4094),
         dict(bs=4096, W=3, cut=0, boff=512, doff=None, at=16383),
         dict(bs=1024, W=3, cut=512, boff=512, doff=None, at=65535),
+        # block sizes that are whole sectors but no power of two, below / above / far above the stream buffer, so that
+        # buffer windows and block boundaries never line up
+        dict(bs=1536, W=4, cut=0, boff=512, doff=None),
+        dict(bs=10240, W=4, cut=512, boff=512, doff=None),
+        dict(bs=12288, W=3, cut=0, boff=1024, doff=16384),
+        dict(bs=3 * 65536 + 512, W=3, cut=1024, boff=512, doff=None),
     ],
     "thorough": [
         dict(bs=4096, W=4, cut=512, boff=512, doff=None, at=1021),
